@@ -72,6 +72,7 @@ type Result struct {
 	WallUs  int64          `json:"wall_us"`
 	MemMB   int            `json:"mem_mb"`
 	SigHits map[string]int `json:"sig_hits,omitempty"`
+	PUHits  map[string]int `json:"pu_hits,omitempty"`
 	Desc    string         `json:"desc,omitempty"`
 
 	// runner side
